@@ -143,6 +143,24 @@ def hook(rd, e, st, ctx):
                     M2[i0:i0 + r_, j0:j0 + c_] = M2[i0:i0 + r_, j0:j0 + c_] * (val if e['op'] == '*=' else 1 / val)
                     _save(rd, lv, st, sp.ImmutableMatrix(M2))
                     return [(val, st)]
+        # vector block store  v.head<N>() = sub / v.segment<N>(i) = sub / v.tail<N>() = sub  (and the run-time sized spellings with constant arguments)
+        if l.get('k') == 'MCall' and l.get('m') in ('segment', 'head', 'tail') and not l.get('inrepo'):
+            base = strip_casts(l['obj'])
+            lv = rd.lvalue(base, st, ctx)
+            shape = dims_of(base['t']['s'])
+            spec = _vector_block(l)
+            if lv and lv[0] in ('field', 'local', 'localmember') and shape is not None and shape[1] == 1 and spec is not None and isinstance(val, sp.MatrixBase) and e['op'] in ('=', '+=', '-='):
+                M = _load(rd, lv, st, base, ctx)
+                if M is not None:
+                    i0, n_ = ((shape[0] - spec[1], spec[1]) if spec[0] == 'tail' else spec)
+                    V = sp.Matrix(val)
+                    if V.shape == (1, n_):
+                        V = V.T
+                    if 0 <= i0 and i0 + n_ <= shape[0] and V.shape == (n_, 1):
+                        M2 = sp.Matrix(M)
+                        M2[i0:i0 + n_, 0] = V if e['op'] == '=' else M2[i0:i0 + n_, 0] + V if e['op'] == '+=' else M2[i0:i0 + n_, 0] - V
+                        _save(rd, lv, st, sp.ImmutableMatrix(M2))
+                        return [(val, st)]
         # column/row store  M.col(k) = vec
         if l.get('k') == 'MCall' and l.get('m') in ('col', 'row') and len(l.get('args', [])) == 1:
             kk = const_value(l['args'][0])
@@ -224,20 +242,7 @@ def hook(rd, e, st, ctx):
         return out
     if k == 'MCall' and not e.get('inrepo') and e.get('m') in ('segment', 'head', 'tail'):
         # fixed-size vector blocks: v.segment<N>(i), v.head<N>(), v.tail<N>() (size in the VectorBlock type) and v.segment(i, n), v.tail(n)
-        mm = re.search(r'VectorBlock<.*, (-?\d+)>\s*$', e['t']['s'])
-        tn = int(mm.group(1)) if mm and int(mm.group(1)) > 0 else None
-        cargs = [const_value(a) for a in e.get('args', [])]
-        name = e['m']
-        spec = None
-        if None not in cargs:
-            if name == 'segment' and len(cargs) == 2:
-                spec = (int(cargs[0]), int(cargs[1]))
-            elif name == 'segment' and len(cargs) == 1 and tn:
-                spec = (int(cargs[0]), tn)
-            elif name == 'head' and not cargs and tn:
-                spec = (0, tn)
-            elif name == 'tail' and (tn or len(cargs) == 1):
-                spec = ('tail', int(cargs[0]) if cargs else tn)
+        spec = _vector_block(e)
         if spec is not None:
             out = []
             for (ov, s2) in rd.ev(e['obj'], st, ctx):
@@ -287,6 +292,27 @@ def hook(rd, e, st, ctx):
 
 
 REGION_METHODS = ('block', 'topLeftCorner', 'topRightCorner', 'bottomLeftCorner', 'bottomRightCorner', 'topRows', 'bottomRows', 'leftCols', 'rightCols')
+
+
+def _vector_block(e):
+    """(first, count) or ('tail', count) of v.segment / v.head / v.tail with constant sizes; None otherwise."""
+    mm = re.search(r'VectorBlock<.*, (-?\d+)>\s*$', e['t']['s'])
+    tn = int(mm.group(1)) if mm and int(mm.group(1)) > 0 else None
+    cargs = [const_value(a) for a in e.get('args', [])]
+    name = e['m']
+    spec = None
+    if None not in cargs:
+        if name == 'segment' and len(cargs) == 2:
+            spec = (int(cargs[0]), int(cargs[1]))
+        elif name == 'segment' and len(cargs) == 1 and tn:
+            spec = (int(cargs[0]), tn)
+        elif name == 'head' and not cargs and tn:
+            spec = (0, tn)
+        elif name == 'head' and len(cargs) == 1:
+            spec = (0, int(cargs[0]))
+        elif name == 'tail' and (tn or len(cargs) == 1):
+            spec = ('tail', int(cargs[0]) if cargs else tn)
+    return spec
 
 
 def region(e, shape):
